@@ -233,6 +233,59 @@ def drive(work, family, cases=None, n=0, seed=1, tier="quick", mode="", extra=""
     return out
 
 
+def drive_resumable(work, family, cases=None, n=0, seed=1, tier="quick", timeout=1800, max_restarts=400):
+    """Runs a family whose cases can kill the driver process (goalign calls os.Exit from inside two lexers; a loop that
+    does not read cannot be stopped).  Every case is announced by an 'intent' line; a dangling intent becomes an event of
+    kind 'exit' (resp. the driver's own 'hang' event is kept) and the driver is restarted after that case."""
+    final = work.fresh("trace", ".ndjson")
+    start = 0
+    nrestart = 0
+    t0 = time.time()
+    with open(final, "w") as out:
+        while True:
+            part = work.fresh("part", ".ndjson")
+            cmd = [work.driver, family, "-out", part, "-seed", str(seed), "-n", str(n), "-tier", tier, "-extra", "start=%d" % start]
+            if cases:
+                cmd += ["-in", cases]
+            try:
+                r = subprocess.run(cmd, capture_output=True, text=True, timeout=timeout)
+            except subprocess.TimeoutExpired:
+                raise ToolingError("driver %s timed out after %ds" % (family, timeout))
+            if r.returncode == 3:
+                raise ToolingError("driver %s failed:\n%s" % (family, r.stderr[-3000:]))
+            pending = None
+            for line in open(part):
+                if not line.strip():
+                    continue
+                e = json.loads(line)
+                if e["kind"] == "intent":
+                    if pending is not None:
+                        raise ToolingError("two intents in a row in %s" % part)
+                    pending = e
+                else:
+                    out.write(line)
+                    pending = None
+            os.remove(part)
+            if r.returncode == 0 and pending is None:
+                break
+            nrestart += 1
+            if nrestart > max_restarts:
+                raise ToolingError("driver %s died more than %d times" % (family, max_restarts))
+            if pending is not None:
+                pending["kind"] = "exit"
+                pending["msg"] = "the process exited inside the parser (exit status %d): %s" % (r.returncode, r.stderr.strip()[-200:])
+                out.write(json.dumps(pending, separators=(",", ":")) + "\n")
+                start = int(pending["id"].rsplit("#", 1)[1]) + 1
+            else:
+                # the driver reported a wall-clock hang itself (exit status 4) or died between two cases
+                last = e["id"] if r.returncode == 4 else None
+                if last is None:
+                    raise ToolingError("driver %s exited with %d outside a case:\n%s" % (family, r.returncode, r.stderr[-2000:]))
+                start = int(last.rsplit("#", 1)[1]) + 1
+    log("drive %-21s %d restart(s)  %.1fs" % (family, nrestart, time.time() - t0))
+    return final
+
+
 def read_events(path):
     evs = []
     with open(path) as f:
